@@ -46,6 +46,7 @@ type refModel struct {
 type overrides struct {
 	memb      map[string]map[string]bool // set name -> address -> member?
 	invisible map[string]bool            // pod key -> galaxy has installed nothing for the pod
+	lostNet   map[string]map[string]bool // hash:net set name -> member (as ipset lists it) that is in the set in no role
 }
 
 func (o *overrides) member(set, addr string, truth bool) bool {
@@ -67,14 +68,22 @@ func newRefModel(cl *Cluster, sw Switches, firstDir string) *refModel {
 	return m
 }
 
-func blockMatches(b *Block, addr uint32) bool {
+func isLost(lost map[string]bool, cidr string) bool {
+	if len(lost) == 0 {
+		return false
+	}
+	c, ok := netMember(cidr)
+	return ok && lost[c]
+}
+
+func blockMatches(b *Block, addr uint32, lost map[string]bool) bool {
 	base, bits, ok := parsePrefix(b.CIDR)
-	if !ok || addr&maskOf(bits) != base {
+	if !ok || addr&maskOf(bits) != base || isLost(lost, b.CIDR) {
 		return false
 	}
 	for _, ex := range b.Except {
 		eb, ebits, ok := parsePrefix(ex)
-		if ok && addr&maskOf(ebits) == eb {
+		if ok && addr&maskOf(ebits) == eb && !isLost(lost, ex) {
 			return false
 		}
 	}
@@ -83,7 +92,7 @@ func blockMatches(b *Block, addr uint32) bool {
 
 // mergedBlocksMatch is switch D13: all ipBlock peers of the rule as one hash:net set (most specific covering
 // member decides; an exception member means "no match"; a zero prefix is not stored).
-func mergedBlocksMatch(peers []Peer, addr uint32) bool {
+func mergedBlocksMatch(peers []Peer, addr uint32, lost map[string]bool) bool {
 	type ent struct {
 		bits    int
 		nomatch bool
@@ -91,7 +100,7 @@ func mergedBlocksMatch(peers []Peer, addr uint32) bool {
 	best := ent{bits: -1}
 	consider := func(cidr string, nomatch bool) {
 		base, bits, ok := parsePrefix(cidr)
-		if !ok || bits == 0 || addr&maskOf(bits) != base {
+		if !ok || bits == 0 || addr&maskOf(bits) != base || isLost(lost, cidr) {
 			return
 		}
 		// the same prefix as member and as exception cannot both be stored; the generator avoids that case
@@ -117,14 +126,18 @@ func (m *refModel) peersMatch(pol *Policy, egress bool, idx int, peers []Peer, a
 		return !m.sw.D6
 	}
 	a, _ := ipToU32(addr)
-	if m.sw.D13 && mergedBlocksMatch(peers, a) {
+	var lost map[string]bool
+	if m.over != nil {
+		lost = m.over.lostNet[peerSetName(pol, egress, idx, true)]
+	}
+	if m.sw.D13 && mergedBlocksMatch(peers, a, lost) {
 		return true
 	}
 	podish, hasPodish := false, false
 	for i := range peers {
 		pe := &peers[i]
 		if pe.Block != nil {
-			if !m.sw.D13 && blockMatches(pe.Block, a) {
+			if !m.sw.D13 && blockMatches(pe.Block, a, lost) {
 				return true
 			}
 			continue
